@@ -45,7 +45,7 @@ which SHADOWS the field), the two `drained`, and one `start:…` channel per go 
 * **One episode.** Every channel of an episode other than 0–3 is a fresh local that does not escape (checked by the
   translator), so a later episode cannot touch it; `next_iteration_only_after_writer_exit` shows that when the reader goes on
   to the next iteration the old writer is past its last communication. (When the reader RETURNS, the writer may still be
-  running in the SKELETON — see `skeleton_has_reader_returned_with_writer_running` for why that is an artefact on the repaired code; it can always finish on its own: `episode_ends_with_writer_able_to_finish`.)
+  running in the SKELETON — see `skeleton_has_reader_returned_with_writer_running` for why that is an artefact on the repaired code; the can-finish theorems speak about states in which the reader is still in the episode.)
 * **Explicit `panic(…)` statements** of inlined callees (`onAppendEntriesResp`: `[BUG]` default case) are no-ops; variant P
   models a panic of `writeAppendEntriesReq` (it reaches `panic(opError(…))` in `getEntryTerm` / `writeEntriesTo`).
 -/
@@ -58,12 +58,13 @@ open Raft.Chan
 theorem inv_holds (s : State) (hs : Reachable pipeSys s) : inv s = true := pipeSys_explored s hs
 
 theorem writer_leadsTo (s : State) (hs : Reachable pipeSys s) :
-    (!((s.isClosed stopCh || readerLeft s) && !writerWaitsForLeader s) || writerCanFinish s) = true := by
+    (!(s.isClosed stopCh && !readerLeft s && noDrainerDone s && !writerWaitsForLeader s) || writerCanFinish s) = true := by
   have h := pipeSys_live s hs
   simp only [alwaysLive, Bool.and_eq_true] at h
   exact h.1
 
-theorem stopped_leadsTo (s : State) (hs : Reachable pipeSys s) : (!s.isClosed rStopCh || episodeCanFinish s) = true := by
+theorem stopped_leadsTo (s : State) (hs : Reachable pipeSys s) :
+    (!(s.isClosed rStopCh && !readerLeft s && noDrainerDone s) || episodeCanFinish s) = true := by
   have h := pipeSys_live s hs
   simp only [alwaysLive, Bool.and_eq_true] at h
   exact h.2
@@ -114,25 +115,18 @@ theorem next_iteration_only_after_writer_exit :
 
 /-! ## the writer terminates -/
 
-/-- **the writer terminates once stopped**: after the reader's `close(stopCh)` (the LOCAL one) the writer can always run to its
-    return on its own — strict steps only, nobody else moves, no timer fires, no panic — unless it is blocked in `notifyLdr`
-    with `r.stopCh` still open, where the leader releases it -/
+/-- **the writer terminates once stopped**: after the reader's `close(stopCh)` (the LOCAL one), as long as the reader is still in
+    the episode and no drainer has delivered its result (`noDrainerDone`: the artefact states of the skeleton), the goroutines of the episode can bring the writer to its return on their own — strict steps only, no timer fires,
+    the leader does nothing, no panic — unless the writer is blocked in `notifyLdr` with `r.stopCh` still open, where the leader
+    releases it. (The writer alone is not enough since the repair of F21: a request that is on the wire is always reported on
+    `resultCh`, and the reader, which drains `resultCh` until it is closed on every exit, may have to take that report.) -/
 theorem writer_terminates_once_stopped :
-    ∀ s, Reachable pipeSys s → s.isClosed stopCh = true → writerWaitsForLeader s = false →
-      ∃ t, GroupReach pipeSys [writer] s t ∧ halted pipeSys t writer = true := by
-  intro s hs h1 h2
+    ∀ s, Reachable pipeSys s → s.isClosed stopCh = true → readerLeft s = false → noDrainerDone s = true →
+      writerWaitsForLeader s = false →
+      ∃ t, GroupReach pipeSys goroutines s t ∧ halted pipeSys t writer = true := by
+  intro s hs h1 h2 h4 h3
   have h := writer_leadsTo s hs
-  simp only [h1, h2, Bool.true_or, Bool.not_false, Bool.and_true, Bool.not_true, Bool.false_or] at h
-  exact canReach_sound h
-
-/-- **the episode ends with a writer that can finish**: whenever the reader has left the episode (returned, or next iteration),
-    the writer can run to its return on its own (same proviso). (In the skeleton it need not have returned yet: see `skeleton_has_reader_returned_with_writer_running`.) -/
-theorem episode_ends_with_writer_able_to_finish :
-    ∀ s, Reachable pipeSys s → readerLeft s = true → writerWaitsForLeader s = false →
-      ∃ t, GroupReach pipeSys [writer] s t ∧ halted pipeSys t writer = true := by
-  intro s hs h1 h2
-  have h := writer_leadsTo s hs
-  simp only [h1, h2, Bool.or_true, Bool.not_false, Bool.and_true, Bool.not_true, Bool.false_or] at h
+  simp only [h1, h2, h3, h4, Bool.not_false, Bool.and_true, Bool.not_true, Bool.false_or] at h
   exact canReach_sound h
 
 /-! NOTE (not an obligation; `RaftGen/Notes/PipeObservations.lean`): the SKELETON still has a reachable state in which the reader
@@ -145,17 +139,17 @@ repaired code it is an artefact of data erasure: the translator does not track w
 
 /-- **once `r.stopCh` is closed by the leader, the whole replication goroutine can finish**: in the probe loop
     `checkLeaderUpdate` returns (`C15Chan.checkLeaderUpdate_returns_once_stopped`), and from every reachable state of a pipelining
-    episode the goroutines of the episode can, on their own (strict steps: no timer fires, the leader does nothing more),
+    episode in which the reader has not left, the goroutines of the episode can, on their own (strict steps: no timer fires, the leader does nothing more),
     reach the state where reader and writer have returned and every started drainer has returned. Since `r.stopCh` stays
     closed this holds again in every state they pass through: under a fair scheduler the episode ends. -/
 theorem replication_can_finish_once_stopped :
     (∀ s, Reachable C15Chan.waitSys s → (!s.isClosed 1 || enabledStrict C15Chan.waitSys s 0) = true) ∧
-    (∀ s, Reachable pipeSys s → s.isClosed rStopCh = true →
+    (∀ s, Reachable pipeSys s → s.isClosed rStopCh = true → readerLeft s = false → noDrainerDone s = true →
       ∃ t, GroupReach pipeSys goroutines s t ∧ allDone t = true ∧ Reachable pipeSys t) := by
   refine ⟨C15Chan.checkLeaderUpdate_returns_once_stopped, ?_⟩
-  intro s hs h1
+  intro s hs h1 h2 h3
   have h := stopped_leadsTo s hs
-  simp only [h1, Bool.not_true, Bool.false_or] at h
+  simp only [h1, h2, h3, Bool.not_false, Bool.and_true, Bool.not_true, Bool.false_or] at h
   obtain ⟨t, ht, hg⟩ := canReach_sound h
   exact ⟨t, ht, hg, ht.reachable hs⟩
 
@@ -238,7 +232,6 @@ end Raft.C15Pipe
 #print axioms Raft.C15Pipe.range_terminates
 #print axioms Raft.C15Pipe.next_iteration_only_after_writer_exit
 #print axioms Raft.C15Pipe.writer_terminates_once_stopped
-#print axioms Raft.C15Pipe.episode_ends_with_writer_able_to_finish
 #print axioms Raft.C15Pipe.replication_can_finish_once_stopped
 #print axioms Raft.C15Pipe.recover_path_is_the_only_panic
 #print axioms Raft.C15Pipe.episode_census
